@@ -163,7 +163,7 @@ pub fn exec(op: &str, a: &[String]) -> Option<Reply> {
             };
             vec![sp, j]
         }
-        // sensitive: starts, ends, contains; insensitive: the same + downcase of both
+        // sensitive: starts, ends, contains; insensitive: the same + downcase of both + the case table
         ("affix", 2) => {
             let k = &["value", "substring", "case_sensitive"];
             let mut o = Vec::new();
@@ -174,6 +174,9 @@ pub fn exec(op: &str, a: &[String]) -> Option<Reply> {
             }
             o.push(call1("downcase", &s(0)?));
             o.push(call1("downcase", &s(1)?));
+            // std `char::to_lowercase` of the chars involved: which hypotheses of the case-insensitive
+            // starts_with theorems the inputs meet
+            o.push(case_table(&[s(0), s(1)]));
             o
         }
         // strlen(truncate(..)), strlen(suffix), truncate(..)
@@ -572,6 +575,44 @@ pub fn generate(sink: &mut Sink, rng: &mut Rng, n: u64) {
         for f in ["upcase", "downcase"] {
             emit(sink, "o.c28.idem", &[Some(&Value::from(f)), Some(&v)]);
         }
+    }
+    // case-insensitive affixes: the old counterexamples of starts_with (zip truncation, byte-length pre-check,
+    // repaired in 2b95bd7), multi-char lower-case expansions (İ, both directions), Final_Sigma, invalid bytes,
+    // special-casing pairs, empty strings
+    let ci_pairs: &[(&[u8], &[u8])] = &[
+        ("ⱥ".as_bytes(), "Ⱥx".as_bytes()),
+        ("Ⱥ".as_bytes(), "ⱥ".as_bytes()),
+        ("Ⱥb".as_bytes(), "ⱥB".as_bytes()),
+        ("i\u{307}".as_bytes(), "İ".as_bytes()),
+        ("İ".as_bytes(), "i\u{307}".as_bytes()),
+        ("İ".as_bytes(), "i".as_bytes()),
+        ("İx".as_bytes(), "İ".as_bytes()),
+        ("i\u{307}x".as_bytes(), "İx".as_bytes()),
+        ("ΑΣ".as_bytes(), "ας".as_bytes()),
+        ("ΑΣ".as_bytes(), "ασ".as_bytes()),
+        ("ΑΣΑ".as_bytes(), "ΑΣ".as_bytes()),
+        ("ας".as_bytes(), "ΑΣ".as_bytes()),
+        (b"\xff", b"\xff"),
+        (b"a\xff", b"A"),
+        (b"a\xe2\x82", b"A\xe2\x82"),
+        (b"\xef\xbf\xbd", b"\xff"),
+        ("ǅ".as_bytes(), "ǆ".as_bytes()),
+        ("ß".as_bytes(), "ẞ".as_bytes()),
+        ("\u{212a}".as_bytes(), "k".as_bytes()),
+        ("ﬁ".as_bytes(), "FI".as_bytes()),
+        (b"", b""),
+        (b"a", b""),
+        (b"", b"a"),
+        (b"aB", b"Ab"),
+        (b"a", b"AB"),
+    ];
+    for (v, sub) in ci_pairs {
+        let (v, sub) = (bv(v.to_vec()), bv(sub.to_vec()));
+        for fname in ["starts_with", "ends_with", "contains"] {
+            emit(sink, &format!("c28.{fname}"), &[Some(&v), Some(&sub), Some(&f)]);
+        }
+        emit(sink, "o.c28.affix", &[Some(&v), Some(&sub)]);
+        sink.count("c28:ci_affix_edge_cases");
     }
     // whitespace table: exhaustive over the BMP in the quick tier, all scalar values in the thorough tier;
     // case-mapping law: exhaustive over all scalar values in the thorough tier, the first 0x3000 otherwise
